@@ -48,3 +48,24 @@ package respondent
 //@
 //@ func (*socket).OpenContext
 //@   ensures isnil(result1) ==> cast("*context", result0).recvPipe == nil && isnil(cast("*context", result0).backtrace)
+// ---- generated option contracts (tools/gen_option_contracts.py) ----
+//@ func (*context).SetOption
+//@   ensures name != protocol.OptionBestEffort && name != protocol.OptionSendDeadline && name != protocol.OptionRecvDeadline ==> result == protocol.ErrBadOption
+//@   ensures name == protocol.OptionBestEffort ==> (isnil(result) <==> is_bool(v))
+//@   ensures name == protocol.OptionBestEffort && !isnil(result) ==> result == protocol.ErrBadValue
+//@   ensures name == protocol.OptionBestEffort && isnil(result) ==> c.bestEffort == bool_of(v)
+//@   ensures name == protocol.OptionSendDeadline ==> (isnil(result) <==> is_duration(v))
+//@   ensures name == protocol.OptionSendDeadline && !isnil(result) ==> result == protocol.ErrBadValue
+//@   ensures name == protocol.OptionSendDeadline && isnil(result) ==> c.sendExpire == int_of(v)
+//@   ensures name == protocol.OptionRecvDeadline ==> (isnil(result) <==> is_duration(v))
+//@   ensures name == protocol.OptionRecvDeadline && !isnil(result) ==> result == protocol.ErrBadValue
+//@   ensures name == protocol.OptionRecvDeadline && isnil(result) ==> c.recvExpire == int_of(v)
+//@   ensures !isnil(result) ==> unchanged(c.bestEffort, c.recvExpire, c.sendExpire)
+//@
+//@ func (*context).GetOption
+//@   ensures name != protocol.OptionBestEffort && name != protocol.OptionSendDeadline && name != protocol.OptionRecvDeadline ==> result1 == protocol.ErrBadOption && isnil(result0)
+//@   ensures name == protocol.OptionBestEffort ==> isnil(result1) && result0 == iface(c.bestEffort)
+//@   ensures name == protocol.OptionSendDeadline ==> isnil(result1) && result0 == iface(c.sendExpire)
+//@   ensures name == protocol.OptionRecvDeadline ==> isnil(result1) && result0 == iface(c.recvExpire)
+//@
+// ---- end generated option contracts ----
